@@ -21,6 +21,14 @@ theorem exec_bind {α β} (m : M α) (f : α → M β) (s : State) :
   rcases h : m.run.run s with ⟨r, s'⟩
   cases r <;> simp <;> rfl
 
+theorem exec_map {α β} (f : α → β) (m : M α) (s : State) :
+    exec (f <$> m) s = match exec m s with
+      | (.ok a, s') => (.ok (f a), s')
+      | (.error e, s') => (.error e, s') := by
+  rw [map_eq_pure_bind, exec_bind]
+  rcases exec m s with ⟨r, s'⟩
+  cases r <;> rfl
+
 @[simp] theorem exec_getS (s : State) : exec getS s = (.ok s, s) := rfl
 @[simp] theorem exec_get (s : State) : exec (get : M State) s = (.ok s, s) := rfl
 @[simp] theorem exec_modS (f : State → State) (s : State) : exec (modS f) s = (.ok (), f s) := rfl
